@@ -25,11 +25,20 @@ RULE = ('exhaustive box: line width w in 1..5 x sequence length n in 0..11 x {LF
         'query alone); header cases (file names with blanks and '
         'dots registered one by one in shuffled order: stored header and reopened path/files against the header model); every file is '
         'also read with sugar.read and compared with the whole-file reader model; a malformed '
-        'stream of raw files (compared for drift only); corpus = witnesses of F11-F13, F15, F16. '
+        'stream of raw files (compared for drift only); store cases (80 quick / 1500 thorough: record lists for the binary search file '
+        'alone -- ids that are prefixes of each other, mixed case, duplicate ids, numbers around the 1/2/3-byte field widths -- written '
+        'with FastaBinarySearchFile.write and compared byte for byte with the modelled file, read_header()/read()/get(key) for present '
+        'and absent keys, _pack/_unpack); machine cases (120 quick / 2500 thorough, both back ends: one index, a history of add (several '
+        'files in any order, names sorting against creation order, binary with/without force, the same file again, an empty first add '
+        'as `sugar index create` does) / reopen / get / len / files, after every add the index file is read back, at the end every '
+        'record is queried; every output is compared with the state machine model); corpus = witnesses of F11-F13, F15, F16, F29 as a '
+        'machine run. '
         'non-trivial = distinct case whose queries cross a line break, are clipped, start beyond the end, hit an empty record, '
         'use CRLF or a file without final newline')
-TRUSTED = ['mmap, dbm (dbm.dumb here), binarysearchfile 0.2.0 and the header persistence format: not modelled; binary = dbm = reopened '
-           'is checked relationally on every case (every case runs through the real FastaIndex on a temp directory)',
+TRUSTED = ['mmap and dbm (dbm.dumb here) keeping the bytes / values they are given; binary = dbm = reopened is also checked relationally on '
+           'every case (every case runs through the real FastaIndex on a temp directory)',
+           'binarysearchfile 0.2.0 (site-packages, the back end of mode binary) is MODELLED since round 7: tuple order, sorted(), '
+           '_binarysearch, search/get, write() file layout, read_header()/read(); tied by the store and machine cases',
            'CPython bytes.split/str.strip/str.upper/re (IDPATTERN third alternative only; ids with : or | are outside the domain)',
            'modelled: _iter_fasta_index (fastaindex.py:41-86), _extract_seqdata (:89-138), _pack/_unpack (:150-157), '
            'FastaIndex.add/_search/get/get_fasta/get_fastaheader/__len__ as a list of scanner entries with last-wins lookup '
@@ -43,7 +52,7 @@ NO_SHRINK = False
 MODELLED_FUNCS = {'sugar/index/fastaindex.py': ['_iter_fasta_index', '_extract_seqdata', '_int', '_pack', '_unpack',
                                                'FastaIndex.add', 'FastaIndex._search', 'FastaIndex.iter', 'FastaIndex.iter_fasta',
                                                'FastaIndex.iter_fastaheader', 'FastaIndex.get', 'FastaIndex.get_fasta',
-                                               'FastaIndex.get_fastaheader', 'FastaIndex.__len__'],
+                                               'FastaIndex.get_fastaheader', 'FastaIndex.__len__', 'FastaIndex._read_header'],
                   'sugar/_io/fasta.py': ['iter_fasta', '_create_bioseq', '_id_from_header']}
 
 MODES = {'binary': 0, 'db': 1}
@@ -588,11 +597,30 @@ def _canon(case, v):
         return v
 
 
+def _hdr_files(h):
+    """file names listed in the header of a binary index file (second line: path, names)"""
+    try:
+        return [x.strip() for x in h.split('\n')[1].split(',')][1:]
+    except Exception:
+        return None
+
+
 def _canon_machine(case, v):
+    """observables only: answers, len; the index file through what it says (records with the NAME of their file, set of
+    registered files) -- not the registration order of files inside one add call, not the raw bytes (the byte layout is tied
+    by the store cases and the header cases)"""
     if not isinstance(v, list) or len(v) != len(case['ops']):
         return v
     out = []
     for o, r in zip(case['ops'], v):
+        if o['op'] == 'add' and isinstance(r, list) and len(r) == 2:
+            try:
+                names = _hdr_files(r[1][0])
+                r = ['index-file', sorted(set(names)), sorted([x[0], names[x[1]], x[2], x[3]] for x in r[1][1])]
+            except Exception:
+                pass
+        elif o['op'] == 'files' and isinstance(r, list) and len(r) == 2 and isinstance(r[1], list):
+            r = [r[0], sorted(set(r[1]))]
         if o['op'] == 'get' and o['q']['api'] == 1 and o['q']['rng'] and not (o['q']['i'] is None and o['q']['j'] is None) \
                 and isinstance(r, str):
             k = r.find('\n') + 1
@@ -603,7 +631,12 @@ def _canon_machine(case, v):
 
 def agree(case, implval, modelval):
     if is_store_case(case):
-        return implval == modelval
+        def cp(v):      # the packed dbm value itself is not an observable, only what it unpacks to
+            try:
+                return v[:3] + [[x if isinstance(x, dict) else x[1:] for x in v[3]]]
+            except Exception:
+                return v
+        return cp(implval) == cp(modelval)
     if is_machine_case(case):
         return _canon_machine(case, implval) == _canon_machine(case, modelval)
     return _canon(case, implval) == _canon(case, modelval)
@@ -755,9 +788,12 @@ def spec_machine(case, got):
                 ids = sorted(x['id'].encode('latin-1') for k in added for x in env[k]['recs'])
                 if [x[0].encode('latin-1') for x in srecs] != ids:
                     return 'index file holds the ids %r, added were %r' % ([x[0] for x in srecs], ids)
+                hfiles = _hdr_files(h) or []
+                if sorted(set(hfiles)) != sorted(files):
+                    return 'index file lists the files %r, added were %r' % (hfiles, files)
                 for x in srecs:
                     k = fileof[x[0]]
-                    if x[1] >= len(files) or files[x[1]] != env[k]['name'] or x[3] != recs_all[x[0]][1]:
+                    if x[1] >= len(hfiles) or hfiles[x[1]] != env[k]['name'] or x[3] != recs_all[x[0]][1]:
                         return 'index file record %r: file %r offset %d expected' % (x, env[k]['name'], recs_all[x[0]][1])
         elif op == 'reopen':
             if r is not None:
@@ -772,7 +808,7 @@ def spec_machine(case, got):
             if len(set(added)) == len(added) and r != nrec:
                 return 'len(index) = %r, %d records added' % (r, nrec)
         else:
-            if r != ['{dbpath}/', files]:
+            if not isinstance(r, list) or r[0] != '{dbpath}/' or sorted(set(r[1])) != sorted(files):
                 return 'path/files = %r, expected %r' % (r, files)
     return None
 
@@ -1191,6 +1227,8 @@ def machine_case(rng, mode=None):
         return Q(api, r['id'], i, i + rng.choice([1, 2, w, w + 2, n + 3]))
     first = rng.sample(range(nenv), rng.randint(1, nenv))
     ops = [{'op': 'add', 'ks': first, 'force': False}]
+    if rng.random() < 0.15:       # `sugar index create`: an add call without files, then the files
+        ops = [{'op': 'add', 'ks': [], 'force': False}, {'op': 'len'}] + ops
     reopened = False
     for _ in range(rng.choice([4, 7, 10])):
         c = rng.random()
@@ -1212,7 +1250,7 @@ def machine_case(rng, mode=None):
             ops.append({'op': 'add', 'ks': ks, 'force': mode == 'binary' and rng.random() < 0.8})
     # every history ends with the observables of the property on every record added so far
     ops += [{'op': 'files'}, {'op': 'len'}]
-    for r in rng.sample(recs, min(len(recs), 4)):
+    for r in recs:
         ops.append({'op': 'get', 'q': Q(rng.choice([0, 1]), r['id'], 1, r['w'] + 2)})
     return {'_kind': 'machine', 'db': mode == 'db', 'reopen': reopened, 'files': [], 'queries': [], 'env': env, 'ops': ops}
 
@@ -1259,6 +1297,19 @@ F16_WITNESS = {'_kind': 'witness-F16', 'db': True, 'reopen': True, 'addmode': 0,
 
 
 def extra_checks(rng, tier, cov):
+    """the relational checks; an exception inside them (the real code raising where it must answer) is a violation, not a crash"""
+    try:
+        yield from _extra_checks(rng, tier, cov)
+    except Exception as e:
+        import traceback
+        tb = traceback.extract_tb(e.__traceback__)
+        where = '%s:%d' % (os.path.basename(tb[-1].filename), tb[-1].lineno) if tb else '?'
+        yield {'case': dict(F16_WITNESS, db=False, _kind='relational-check-raised', files=[], queries=[]), 'impl': canon_exc(e),
+               'spec': 'a relational check (index built from well-formed files, ids queried) raised %s at %s: %s' % (type(e).__name__, where, str(e)[:200]),
+               'noshrink': True}
+
+
+def _extra_checks(rng, tier, cov):
     """Relational checks that need no model: binary = dbm = reopened against sugar.read + slicing; open-finding witnesses."""
     import sugar
     from framework import run_impl, jcanon
@@ -1472,7 +1523,12 @@ LEVEL_TEXT = ('Machine-checked Coq theorems (all unbounded unless said otherwise
               'binary records sorted, every stored record / dbm value was produced by the scan of the file registered under its file '
               'number, stored header = header of the registered list), reopen_same (after every history reopening -- parsing path and '
               'file list back from the stored header -- gives the identical state), hist_get_sound (after every history, in either '
-              'mode, whatever id the index finds answers header / text / residues / every slice s[i:j] of the record with that id). '
+              'mode, whatever id the index finds answers header / text / residues / every slice s[i:j] of the record with that id), '
+              'hist_get_complete (ids distinct: once an add call naming a file was accepted, every record of it is found for ever after, '
+              'whatever follows), hist_modes_agree (the same history on a binary and a dbm index: same registered files, an id found by '
+              'one iff by the other with the same numbers, identical answer to every query), hist_queries_agree (header-only answer = '
+              'first line of the whole-record text, which parses to what get returns; get(id,i,j) = slice of get(id); too-large end = open '
+              'end), hist_len (dbm len = number of distinct records held, binary len = records in the file, equal without duplicates). '
               'Byte layouts: pack_iff / stored_db_iff (F15 exactly: _pack/_unpack round-trip iff file number and line length < 65536; '
               'the dbm store returns the record or OverflowError accordingly), record_roundtrip (fixed-width record: ljust/rstrip id + '
               'big-endian integers), file_roundtrip (the whole binary index file -- magic, offsets, header, field table, sorted records '
@@ -1481,14 +1537,25 @@ LEVEL_TEXT = ('Machine-checked Coq theorems (all unbounded unless said otherwise
               'The model (incl. the whole-file reader and the '
               'header functions) is tied to the real code by differential testing on every run (both back ends, same object and '
               'reopened, registration against name order, call histories on the same objects, temp directories).')
-LEVEL_NOTE = ('Trusted / tested only: mmap and dbm (dbm.dumb here) keeping the bytes / values they were given (binarysearchfile is modelled '
-              'since round 7: sort, binary search, file layout); CPython text layer (universal newlines are not modelled: the reader model splits at LF, '
-              'which gives the same stripped lines on files without a lone CR); add(seek=N) (exercised relationally, not modelled). '
-              'Open findings excluded from wf_C09: F15 (dbm line length >= 65536), F16 (dbm id "header"). All histories (one add call, '
-              'one add call per file with force=True in any registration order, reopened index, several objects, repeated calls) are '
-              'inside the tested domain. Domain: printable ASCII, ids without , | ; : >, residues without > and ;, at least one record '
-              'per file, distinct ids; header theorem: path and file names without "," and line feed and without leading/trailing white '
-              'space (binary mode strips them). Statement coverage of the modelled functions in the quick tier: all statements executed '
-              '(the tqdm progress-bar branch through a stand-in put into the module attribute, since tqdm is not installed here). '
-              'All theorems closed under the global context (no axioms).')
+LEVEL_NOTE = ('Trusted / tested only: mmap and dbm (dbm.dumb here) keeping the bytes / values they were given (dbm is a key-value map in the '
+              'model; binarysearchfile 0.2.0 is modelled and proved about since round 7); CPython text layer (universal newlines are not '
+              'modelled: the reader model splits at LF, which gives the same stripped lines on files without a lone CR); add(seek=N) '
+              '(exercised relationally, not modelled); BioSeq metadata and query forms (list / iterators / several ids per call) are '
+              'relational streams. Open findings excluded from wf_C09 / wf_hist_C09: F15 (dbm line length >= 65536; pack_iff / '
+              'stored_db_iff state it exactly), F16 (dbm id "header": the model keeps the header under that key like the code). PENDING FIX '
+              'dbreadonly (build/pending_fixes/C09_dbreadonly.*): a dbm index that was opened again is read-only, add() on it raises '
+              '(binary works; `sugar index add` on a dbm index always fails); such histories are outside wf_hist_C09 and not generated. '
+              'Observed, outside the quantifier: after a lookup of an unknown id binarysearchfile leaves a closed handle in its object, '
+              'so the next operation on the same FastaIndex object raises ValueError (the harness drops the handle); len(index) before '
+              'the first add raises in both modes; add(force=True) on a binary index whose file does not exist yet raises '
+              'FileNotFoundError (modelled; "missing" in hist_get_complete / both); re-adding a file duplicates its records in the binary '
+              'file (answers unchanged: bsf_get_min; len then counts them twice, dbm does not: hist_len states equality only without '
+              'duplicates). The theorems over histories take the file set abstractly (well-formed gfile per name); hist_modes_agree, '
+              'hist_get_complete and hist_len assume ids distinct over the file set (the policy of the property), hist_get_sound / '
+              'reopen_same / hist_invariant do not. Registration order of several files inside one add call and the raw bytes of the dbm '
+              'values are not compared (not observable through the property); the bytes of the binary index file are compared in the '
+              'store cases. Domain: printable ASCII, ids without , | ; : >, residues without > and ;, at least one record per file, '
+              'distinct ids; file names without comma, line feed, outer white space, ASCII. Statement coverage of the modelled '
+              'functions in the quick tier: all statements executed (the tqdm progress-bar branch through a stand-in put into the module '
+              'attribute, since tqdm is not installed here). All theorems closed under the global context (no axioms).')
 TECHNIQUE = 'Coq 8.16 proof (structural induction + lia/nia, finite box by vm_compute) + model/code differential correspondence'
